@@ -67,13 +67,20 @@ def owners(clause):
     if a == "draw":
         return ["C07"]
     if a == "row":
-        return ["C08"]
+        # pool-level utilisation rows are ledger statements too (totals / availability summed over the pool's workers)
+        return ["C08", "C01", "C04"] if b == "WORKER_POOL_UTILIZATION" else ["C08"]
     if a == "frontier":
         return ["C18"]
     if a == "reader":
         return ["C08"]
     if a == "err_expected" and str(b).startswith("closed_loop"):
         return ["C19"]
+    if a == "err_expected" and b == "cancel_bad_state":
+        # the code cancelled a task that has run (RUNNING / PREEMPTED / COMPLETED) where the specification refuses
+        return ["C06", "C05"]
+    if a == "err_expected" and b in ("no_draw", "prob_sum", "child_beyond_scheduled"):
+        # the completion of a conditional did not draw / release as the specification's NotifyCompletion does
+        return ["C07", "C05"]
     if a == "exc" and b == "unexpected_in_placement":
         # the TASK_PLACEMENT handler raised where the specification defers / starts the task (start conditions: C02, C03)
         return ["C05", "C02", "C03"]
@@ -112,7 +119,7 @@ def repo_hash():
 
 def make_worlds(tier):
     rnd = random.Random(f"corpus:{seed()}")
-    n_rand, n_feas = (110, 40) if tier == "quick" else (6000, 2000)
+    n_rand, n_feas = (110, 40) if tier == "quick" else (2500, 800)
     ws = []
     for w in worlds.directed_worlds():
         w = dict(w)
@@ -131,14 +138,14 @@ def make_worlds(tier):
         w["class"] = "feasible"
         ws.append(w)
     # preemptive policies: TASK_PREEMPT / TASK_MIGRATION handlers, running tasks in the frontier
-    n_pre = 16 if tier == "quick" else 800
+    n_pre = 16 if tier == "quick" else 300
     for i in range(n_pre):
         w = worlds.gen_world(rnd, kinds=("edf", "lsf", "hostile"))
         w["sched"]["preemptive"] = True
         w["class"] = "preemptive"
         ws.append(w)
     # Clockwork inside simulate(): the policy loads / evicts models itself (LOAD_PROFILE / EVICT_PROFILE events), batches
-    n_cw = 16 if tier == "quick" else 800
+    n_cw = 16 if tier == "quick" else 300
     for i in range(n_cw):
         w = worlds.gen_clockwork_world(rnd)
         w["class"] = "clockwork"
@@ -150,7 +157,7 @@ def make_worlds(tier):
         w["class"] = "mc_script"
         ws.append(w)
     # the optimisation-based planners inside simulate() (future placements, explicit workers, plan-ahead)
-    n_plan = 12 if tier == "quick" else 600
+    n_plan = 12 if tier == "quick" else 200
     for i in range(n_plan):
         kind = ("ilp", "ts_gurobi", "ts_cplex")[i % 3]
         w = worlds.gen_world(rnd, kinds=("edf",), closed_loop=(i % 2 == 0), extras=False)
